@@ -483,7 +483,7 @@ Proof.
     assert (V : p_valid (as_struct p) = true) by (destruct (p_valid (as_struct p)); auto; discriminate).
     destruct (hp_as_struct _ _ _ HK) as [_ K]. cbn [fst snd] in K. unfold rng_of in K. rewrite EL in K. cbn [negb] in K.
     destruct (K eq_refl V) as [SR _].
-    destruct (frame_all (e_fuel e)) as [P _].
+    destruct (frame_all true (e_fuel e)) as [P _].
     assert (GG : G (w_dst (st_w st)) (w_src (st_w st)) w1 (Rword (p_seg (as_struct p)) (pointerAddress (as_struct p) i))).
     { apply (P true (st_w st) (p_seg (as_struct p)) (pointerAddress (as_struct p) i) ls q false w1); auto.
       - exact (proj1 HQ).
@@ -500,7 +500,7 @@ Proof.
     { unfold primitiveElem in EP. destruct (p_valid (as_list p)); auto. cbn in EP. discriminate. }
     destruct (hp_as_list _ _ _ HK) as [_ K]. cbn [fst snd] in K. unfold rng_of in K. rewrite EL in K. cbn [negb] in K.
     destruct (K eq_refl V) as [SR _].
-    destruct (frame_all (e_fuel e)) as [P _].
+    destruct (frame_all true (e_fuel e)) as [P _].
     assert (GG : G (w_dst (st_w st)) (w_src (st_w st)) w1 (Rword (p_seg (as_list p)) a)).
     { apply (P true (st_w st) (p_seg (as_list p)) a ls q false w1); auto.
       - exact (proj1 HQ).
@@ -517,7 +517,7 @@ Proof.
     destruct (p_valid el) eqn:EVE; [|exfalso; eapply copy_struct_invalid_dst; eauto].
     pose proof (hp_list_struct _ _ _ _ _ (hp_as_list _ _ _ HK) ELS) as [K1 K2].
     cbn [fst snd] in K2. unfold rng_of in K2. rewrite EL in K2. cbn [negb] in K2. destruct (K2 eq_refl EVE) as [SR AR].
-    destruct (frame_all (e_fuel e)) as [_ P].
+    destruct (frame_all true (e_fuel e)) as [_ P].
     assert (GG : G (w_dst (st_w st)) (w_src (st_w st)) w1 (Rfrom el)).
     { apply (P true (st_w st) el ls (as_struct q) w1); auto. apply (hp_as_struct _ _ _ HQ). }
     destruct GG as (_ & I & N & _). split; assumption.
@@ -529,7 +529,7 @@ Proof.
     destruct (p_valid (as_struct p)) eqn:EVE; [|exfalso; eapply copy_struct_invalid_dst; eauto].
     destruct (hp_as_struct _ _ _ HK) as [K1 K2].
     cbn [fst snd] in K2. unfold rng_of in K2. rewrite EL in K2. cbn [negb] in K2. destruct (K2 eq_refl EVE) as [SR AR].
-    destruct (frame_all (e_fuel e)) as [_ P].
+    destruct (frame_all true (e_fuel e)) as [_ P].
     assert (GG : G (w_dst (st_w st)) (w_src (st_w st)) w1 (Rfrom (as_struct p))).
     { apply (P true (st_w st) (as_struct p) ls (as_struct q) w1); auto. apply (hp_as_struct _ _ _ HQ). }
     destruct GG as (_ & I & N & _). split; assumption.
@@ -539,7 +539,7 @@ Proof.
     destruct (bm_segs (w_dst (st_w st))) as [|s0 r0] eqn:ES; [discriminate|].
     destruct (negb _); [discriminate|].
     assert (SR : 0 <= 0 < nsegs (w_dst (st_w st))) by (unfold nsegs, zlen; rewrite ES; cbn [length]; lia).
-    destruct (frame_all (e_fuel e)) as [P _].
+    destruct (frame_all true (e_fuel e)) as [P _].
     assert (GG : G (w_dst (st_w st)) (w_src (st_w st)) w1 (Rword 0 0)).
     { apply (P true (st_w st) 0 0 ls q false w1); auto.
       - exact (proj1 HQ).
